@@ -105,6 +105,14 @@ def hyp_search(case_fn, max_examples, seed, stateful_steps=None):
 
 def minimize(case, fails, key="steps", budget=300):
     """Greedy deletion of steps while ``fails(case)`` keeps reporting the same ``what``."""
+    _f = fails
+
+    def fails(c):  # noqa: F811 - a candidate that breaks the harness is simply not a reproduction
+        try:
+            return _f(c)
+        except Exception:  # noqa: BLE001
+            return None
+
     first = fails(case)
     if first is None:
         return case, None  # not reproducible outside hypothesis: keep as is
@@ -136,7 +144,9 @@ def _cands(x):
             for i in range(len(x)):
                 out.append(x[:i] + x[i + 1:])
     elif isinstance(x, dict):
-        if len(x) == 1 and next(iter(x)) in ("$t",):
+        if len(x) == 1 and next(iter(x)) in _OPAQUE:
+            pass
+        elif len(x) == 1 and next(iter(x)) in ("$t",):
             out.append(x["$t"])
         elif not any(k.startswith("$") for k in x):
             if x:
@@ -157,8 +167,13 @@ def _cands(x):
     return out
 
 
+_OPAQUE = ("$s", "$h", "$inv", "$b", "$f", "$repr")
+
+
 def _subpaths(x, pre=()):
     yield pre
+    if isinstance(x, dict) and len(x) == 1 and next(iter(x)) in _OPAQUE:
+        return
     if isinstance(x, list):
         for i, v in enumerate(x):
             yield from _subpaths(v, pre + (i,))
@@ -189,6 +204,14 @@ def shrink_values(case, fails, what, slots, budget=200):
     """Greedy simplification of argument / document values at ``slots`` (paths into the case)."""
     n = 0
     progress = True
+    _f = fails
+
+    def fails(c):  # noqa: F811
+        try:
+            return _f(c)
+        except Exception:  # noqa: BLE001
+            return None
+
     while progress and n < budget:
         progress = False
         for slot in slots(case):
@@ -253,6 +276,15 @@ def load_findings(prop=None):
     if prop:
         items = [e for e in items if prop in e.get("properties", [e.get("property")])]
     return items
+
+
+def excl_of(active):
+    out = []
+    for e in active or ():
+        x = e.get("exclusion")
+        if x:
+            out += x if isinstance(x, list) else [x]
+    return sorted(set(out))
 
 
 def sig_matches(sig, desc):
